@@ -106,11 +106,17 @@ impl<T: AsRawFd> AsyncFd<T> {
 
             match snapshot.deadline {
                 Some(d) if d > snapshot.now => {
-                    // sleep_until uses simulated time.
-                    let until = Instant::now() + (d - snapshot.now);
-                    tokio::select! {
-                        _ = &mut notified => {}
-                        _ = tokio::time::sleep_until(until) => {}
+                    // sleep_until uses simulated time. A deadline the
+                    // clock cannot represent never arrives; only a new
+                    // submission (or a cancel) can make the ring readable.
+                    match Instant::now().checked_add(d - snapshot.now) {
+                        Some(until) => {
+                            tokio::select! {
+                                _ = &mut notified => {}
+                                _ = tokio::time::sleep_until(until) => {}
+                            }
+                        }
+                        None => notified.await,
                     }
                 }
                 Some(_) => {
